@@ -675,7 +675,7 @@ public:
         auto const sz1  = count1 > size() - pos1 ? size() : count1;
         auto const sub1 = basic_string_view<Char, Traits>(*this).substr(pos1, sz1);
 
-        auto const sz2  = count2 > str.size() - pos2 ? size() : count2;
+        auto const sz2  = count2 > str.size() - pos2 ? str.size() : count2;
         auto const sub2 = basic_string_view<Char, Traits>(str).substr(pos2, sz2);
 
         return sub1.compare(sub2);
